@@ -65,6 +65,8 @@ func c03Spec(tier string) *Spec {
 			rec(nil)
 		}
 	}
+	// command names that are not plain words
+	ops = append(ops, C("GET\r\n", k0), C("NOSUCH\r\nX"), C("\r\n"), C("get k", k0), C("+OK"), C("SET\xff", k0, "v"))
 	// blocking pops only where they return at once or time out quickly
 	ops = append(ops, C("BLPOP", k0, "1"), C("BRPOP", k0, "1"), C("BLPOP", crlfKey, k0, "1"), C("BLPOP", k0), C("BLPOP", k0, "a\r\nb"))
 	return &Spec{Prop: "C03", ShardNum: shardNum, Keys: []string{k0, crlfKey}, Alphabet: ops, Seeds: seeds, Depth: 1,
